@@ -88,7 +88,7 @@ Lemma act_ok : forall c e a s q,
     /\ wcount e a (snd (act c e (s, q))).
 Proof.
   intros c e a s q Hb Hd Hsc.
-  destruct e as [code reason|f| | | | |]; cbn [act].
+  destruct e as [code reason|f| | | | | |]; cbn [act].
   - destruct (local_close_ok code reason a s Hb Hd) as (a1 & (K1 & K2 & K3 & K4 & K5 & K6 & K7 & K8) & K9).
     exists a1. destruct (local_close code reason s) as [s1 o]. cbn [fst snd] in *.
     repeat split; auto; try discriminate; try apply K8.
@@ -105,6 +105,12 @@ Proof.
     assert (Jb a (match s_loop s with LBlocked => set_loop LRead s | _ => s end) = true
             /\ Jd a (match s_loop s with LBlocked => set_loop LRead s | _ => s end)
             /\ s_sc (match s_loop s with LBlocked => set_loop LRead s | _ => s end) = s_sc s) as (B1 & B2 & B3).
+    { brk. unf. destruct s_loop0; unf; repeat split; auto; bsolve Hb. }
+    repeat split; auto; try discriminate; try (rewrite B3; auto).
+  - rewrite note_event_id by reflexivity. exists a. cbn [fst snd mon_items].
+    assert (Jb a (match s_loop s with LOpening => set_loop LRead s | _ => s end) = true
+            /\ Jd a (match s_loop s with LOpening => set_loop LRead s | _ => s end)
+            /\ s_sc (match s_loop s with LOpening => set_loop LRead s | _ => s end) = s_sc s) as (B1 & B2 & B3).
     { brk. unf. destruct s_loop0; unf; repeat split; auto; bsolve Hb. }
     repeat split; auto; try discriminate; try (rewrite B3; auto).
   - rewrite note_event_id by reflexivity.
@@ -149,6 +155,7 @@ Proof.
     { destruct e; auto. destruct (a_sent a) eqn:Es; cbn; auto. }
     assert (E4 : implb (s_sc s2 && negb (is_blocked (tag_of (s_loop s2)))) (a_fired a2) = true).
     { rewrite P8. destruct (s_loop s2) eqn:El; cbn.
+      - rewrite andb_false_r. reflexivity.
       - rewrite (S9 eq_refl). reflexivity.
       - rewrite andb_false_r. reflexivity.
       - destruct (s_sc s2); reflexivity. }
@@ -186,7 +193,7 @@ Qed.
 Lemma Inv_init : forall c, Inv acc0 (init c, []).
 Proof.
   intros c. unfold Inv, init, acc0, Jb, Jd, ping_none, loop_done; cbn.
-  destruct (ping_interval c =? 0)%N; cbn; repeat split; auto.
+  destruct (ping_interval c =? 0)%N, (c_role c), (c_aopen c); cbn; repeat split; auto; discriminate.
 Qed.
 
 Theorem model_satisfies_monitor : forall c evs, check_trace evs (run c evs) = true.
